@@ -85,6 +85,11 @@ class Module:
             self.tree = ast.parse(src, filename=path)
         except SyntaxError as e:
             raise AnalysisError("cannot parse %s: %s" % (path, e))
+        self.inlined = []
+        if os.environ.get("VERIF_NO_INLINE") != "1" and \
+                rel.split("/")[0] in ("core", "model", "codec"):
+            from . import inline
+            self.tree, self.inlined = inline.inline_helpers(self.tree)
         if os.environ.get("VERIF_NO_CANON") != "1":
             from . import canon
             self.tree = canon.normalise(self.tree)
